@@ -58,7 +58,7 @@ async def process_resource_event(
     memory = await memories.recall(raw_body, noticed_by_listing=raw_type is None, memobase=memobase)
     if memory.daemons_memory.live_fresh_body is not None:
         memory.daemons_memory.live_fresh_body._replace_with(raw_body)
-    if raw_type == 'DELETED':
+    if raw_type == 'DELETED' and not memory.daemons_memory.running_daemons:
         await memories.forget(raw_body)
 
     # Convert to a heavy mapping-view wrapper only now, when heavy processing begins.
@@ -134,6 +134,11 @@ async def process_resource_event(
                 operator_paused=operator_paused,
                 consistency_time=consistency_time,
             )
+
+            # The memory of a gone object with running daemons is kept till they are stopped (above),
+            # so that the daemon killer can see & stop them if the operator exits in the meantime.
+            if raw_type == 'DELETED':
+                await memories.forget(raw_body)
 
             # Whatever was done, apply the accumulated changes to the object, or sleep-n-touch for delays.
             # But only once, to reduce the number of API calls and the generated irrelevant events.
